@@ -620,7 +620,8 @@ def wide_image_regression(ctx, full):
     ctx.case(("wide_row", "arms"))
     ctx.count("wide_row_arm_checks", 4 * n)
     got = cross[0].astype(np.int64)
-    if not np.array_equal(got, want):
+    arms_ok = np.array_equal(got, want)
+    if not arms_ok:
         c, k = [int(x) for x in np.argwhere(got != want)[0]]
         ctx.violation("arm_longer_than_32767",
                       f"cross_support on a flat 1 x {n} row with cbca_distance={dist}: arm {['left', 'right', 'top', 'bot'][k]} "
@@ -643,7 +644,7 @@ def wide_image_regression(ctx, full):
     bad = np.argwhere(~(np.abs(after[0, :, 0] - 2.0) <= 2.0 ** -16))
     if bad.size:
         c = int(bad[0][0])
-        ctx.violation("arm_longer_than_32767",
+        ctx.violation("region_mean" if arms_ok else "arm_longer_than_32767",
                       f"flat 1 x {n} pair (left 7, right 9, sad, window 1, d = 0), cbca_distance={dist}: every input cost is "
                       f"2, so every regional mean is 2; the aggregated cost of column {c} is {float(after[0, c, 0])} "
                       f"({bad.shape[0]} columns differ)", replay)
